@@ -156,9 +156,11 @@ theorem safe_optBind (inp : Input) (h : wf .optBind inp = true) : Safe inp (prog
   · simp only [Bool.false_eq_true, if_false]
     exact safe_deriveEach (by simp) (destOk_res inp)
   · simp only [if_true]
-    exact safe_append (safe_readAll (Nat.le_refl _))
-      (safe_ite (fun _ => safe_xferAll_move (not_lvcr_of_rv hr) (Nat.le_refl _) (destOk_res inp)) (fun _ => safe_nil inp))
-      (cross_of_noKills (noKills_readAll _ _))
+    exact safe_ite
+      (fun _ => safe_append (safe_readAll (Nat.le_refl _)) (safe_xferAll_move (not_lvcr_of_rv hr) (Nat.le_refl _) (destOk_res inp))
+        (cross_of_noKills (noKills_readAll _ _)))
+      (fun _ => safe_append (safe_readAll (Nat.le_refl _)) (safe_xferAll_move (not_lvcr_of_rv hr) (Nat.le_refl _) (destOk_drop inp))
+        (cross_of_noKills (noKills_readAll _ _)))
 
 theorem safe_optFrom (inp : Input) (h : wf .optFrom inp = true) : Safe inp (prog .optFrom inp) := by
   have hs := shape_of_wf h
@@ -525,9 +527,16 @@ theorem safe_eithSequenceError (inp : Input) (h : wf .eithSequenceError inp = tr
   split
   · rename_i k hk
     have hlt : k < inp.par.length := (List.findIdx?_eq_some_iff_findIdx_eq.1 hk).1
-    exact safe_append (safe_readAll (by omega)) (safe_singleton (ok_callAt rv_not_lvcr (by omega) (destOk_res inp)))
-      (cross_of_noKills (noKills_readAll _ _))
-  · exact safe_readAll (Nat.le_refl _)
+    refine safe_append (safe_sinkAll (by omega)) (safe_singleton (ok_callAt rv_not_lvcr (by omega) (destOk_res inp))) ?_
+    intro x hx y hy b j hkl hu
+    simp only [List.mem_singleton] at hy
+    subst hy
+    simp only [sinkAll, List.mem_map, List.mem_range] at hx
+    obtain ⟨i, hi, rfl⟩ := hx
+    have e1 := sinkAt_footprint (Or.inl hkl)
+    have e2 := callAt_footprint (Or.inr hu)
+    omega
+  · exact safe_sinkAll (Nat.le_refl _)
 
 /-! ## extension round 2: algorithm / container helpers, tree and grid members -/
 
